@@ -71,8 +71,87 @@ def numeric_job(job):
     return [] if worst < 2e-6 else [{"what": "independent-boson", "err": worst}]
 
 
+def finite_mode_job(job):
+    """Numerical cross-check of the second clause of the property: a bath of finitely many harmonic modes,
+    given through its autocorrelation function, with an arbitrary (non-commuting, dissipative) system must equal
+    the explicitly simulated system + modes evolution (Fock space truncated) with the same symmetric splitting
+    exp(L_S dt/2) exp(-i (H_B + H_SB) dt) exp(L_S dt/2)."""
+    import oqupy
+    from scipy.linalg import expm
+    seed, nmodes, temp, lind, method = job
+    r = np.random.default_rng(seed)
+    d, dt, n = 2, 0.1, 5
+    nmax = 14 if nmodes < 3 else 7
+    sx = np.array([[0, 1], [1, 0]], complex)
+    sy = np.array([[0, -1j], [1j, 0]])
+    sz = np.diag([1.0, -1.0]).astype(complex)
+    hs = (0.4 + 0.4 * r.random()) * sx + 0.3 * sz + 0.2 * sy
+    coup = 0.5 * sz + 0.2 * sx
+    ws = 0.8 + 1.5 * r.random(nmodes)
+    gs = 0.08 + 0.1 * r.random(nmodes)
+    coth = (lambda w: 1 / np.tanh(w / (2 * temp))) if temp > 0 else (lambda w: 1.0)
+    corr = oqupy.CustomCorrelations(lambda tau: sum(g * g * (coth(w) * np.cos(w * tau) - 1j * np.sin(w * tau))
+                                                    for w, g in zip(ws, gs)))
+    system = oqupy.System(hs, gammas=[0.15] if lind else [], lindblad_operators=[sx - 1j * sy] if lind else [])
+    rho0 = probes.generic_rho(2, seed)
+    params = oqupy.TempoParameters(dt=dt, epsrel=1e-9)
+    bath = oqupy.Bath(coup, corr)
+    if method == "tempo":
+        dyn = oqupy.Tempo(system, bath, params, rho0, 0.0).compute(n * dt + dt / 4, progress_type="silent")
+    else:
+        pt = oqupy.PtTempo(bath, 0.0, n * dt + dt / 4, params).get_process_tensor(progress_type="silent")
+        dyn = oqupy.compute_dynamics(system, initial_state=rho0, process_tensor=pt, progress_type="silent")
+    a = np.diag(np.sqrt(np.arange(1, nmax)), 1)
+    idm = np.eye(nmax)
+
+    def kron_all(ops):
+        out = ops[0]
+        for o in ops[1:]:
+            out = np.kron(out, o)
+        return out
+    dim = d * nmax ** nmodes
+    hb = np.zeros((dim, dim), complex)
+    hsb = np.zeros((dim, dim), complex)
+    rho_b = None
+    for k, (w, g) in enumerate(zip(ws, gs)):
+        ops = [np.eye(d)] + [idm] * nmodes
+        ops[1 + k] = w * (a.T @ a)
+        hb += kron_all(ops)
+        ops = [coup] + [idm] * nmodes
+        ops[1 + k] = g * (a + a.T)
+        hsb += kron_all(ops)
+        pk = np.exp(-w * np.arange(nmax) / temp) if temp > 0 else np.eye(nmax)[0]
+        rb = np.diag(pk / pk.sum()).astype(complex)
+        rho_b = rb if rho_b is None else np.kron(rho_b, rb)
+    umid = expm(-1j * (hb + hsb) * dt)
+    lhalf = expm(system.liouvillian() * dt / 2)
+
+    def sys_super(rho, sup):
+        nb = rho.shape[0] // d
+        r4 = sup @ rho.reshape(d, nb, d, nb).transpose(0, 2, 1, 3).reshape(d * d, nb * nb)
+        return r4.reshape(d, d, nb, nb).transpose(0, 2, 1, 3).reshape(d * nb, d * nb)
+    rho = np.kron(rho0, rho_b)
+    worst = 0.0
+    for m in range(1, n + 1):
+        rho = sys_super(rho, lhalf)
+        rho = umid @ rho @ umid.conj().T
+        rho = sys_super(rho, lhalf)
+        nb = rho.shape[0] // d
+        red = np.trace(rho.reshape(d, nb, d, nb), axis1=1, axis2=3)
+        worst = max(worst, float(np.max(np.abs(red - dyn.states[m]))))
+    return [] if worst < 1e-6 else [{"what": "finite-mode-bath", "err": worst}]
+
+
 def run(ctx):
     quick = ctx.tier == "quick"
+    fjobs = [(ctx.seed + i, nm, t, lind, meth) for i, (nm, t, lind) in enumerate(
+        [(1, 0.0, False), (2, 0.7, False), (1, 0.5, True), (3, 0.0, True)] if quick else
+        [(1, 0.0, False), (2, 0.7, False), (1, 0.5, True), (3, 0.0, True), (2, 0.0, True), (3, 1.2, False), (1, 2.0, True)])
+        for meth in ("tempo", "pt")]
+    for j, mm in zip(fjobs, core.pmap(finite_mode_job, fjobs)):
+        ctx.case({"finite_mode_bath": {"modes": j[1], "T": j[2], "lindblad": j[3], "method": j[4]}}, nontrivial=True)
+        for x in mm:
+            ctx.violation("C01:finite-modes:%s:%s" % (j[4], x["what"]), "%s: %s" % (j, x), {"finite": list(j)})
     njobs = [(ct, t, z, meth) for ct in ("hard", "exponential", "gaussian") for t in (0.0, 0.6)
              for z, meth in ((1.0, "tempo"), (3.0, "pt"))]
     for j, mm in zip(njobs, core.pmap(numeric_job, njobs)):
@@ -115,10 +194,17 @@ def run(ctx):
     ctx.assumptions += [
         "probe bath: CustomSD subclass with exact lattice eta_function; the numerical value of eta for real spectral densities is only cross-checked numerically (12 runs: 3 cutoff types x T x exponent/method against an independent quadrature, 2e-6)",
         "SVD truncation 1e-15 in probe runs",
+        "finite-mode baths (1..3 modes, non-commuting dissipative system, non-diagonal coupling): numerical cross-check against an explicit system+modes simulation with Fock truncation (1e-6)",
     ]
 
 
 def replay(ctx, rep):
+    if "finite" in rep["case"]:
+        core._init_worker()
+        ctx.case({"replay": True})
+        for x in finite_mode_job(tuple(rep["case"]["finite"])):
+            ctx.violation("C01:replay:" + x["what"], str(x), rep["case"])
+        return
     if "numeric" in rep["case"]:
         core._init_worker()
         ctx.case({"replay": True})
